@@ -27,7 +27,7 @@ RULE = ("a total classifier valid(dtype, length, value) written from the stateme
 ANCHORS = ['int2bitstore', 'Bits._setuint', 'Bits._setint', 'Bits._setfloat', 'Bits._setbfloatbe', 'DtypeDefinition.get_dtype', 'Dtype.build',
            'bitstore_from_token', 'Bits._setbytes_with_truncation', 'Bits._setbitarray', 'Bits._setfile', 'BitStore.frombuffer',
            'BitArray.__setattr__', 'pack', 'Array.__setitem__', 'Array._create_element']
-REQUIRED_OPS = ['kw+length', 'kw-len-in-name', 'token', 'prop', 'prop+len', 'pack', 'Dtype.build', 'Array-set', 'window:bytes=', 'window:bitarray=',
+REQUIRED_OPS = ['Array-multi:setslice', 'Array-multi:setslice-ext', 'Array-multi:extend', 'Array-multi:init', 'kw+length', 'kw-len-in-name', 'token', 'prop', 'prop+len', 'pack', 'Dtype.build', 'Array-set', 'window:bytes=', 'window:bitarray=',
                 'window:BytesIO', 'window:file']
 MIN_EVALS = {'quick': 10000, 'thorough': 150000}
 
@@ -365,7 +365,153 @@ def zero_length_array(ctx):
             ctx.ok(('zero-array', spec))
 
 
+# ---- Array operations that set several items at once ------------------------------------------------------------
+ARRAY_MULTI_OPS = ['setslice', 'setslice-ext', 'setslice-resize', 'extend', 'extend-gen', 'init', 'insert', 'append', 'setitem']
+
+
+def gen_array_multi(ctx):
+    rng = ctx.rng
+    signed = rng.random() < 0.5
+    n = rng.choice([1, 3, 7, 8, 9, 12, 16, 33])
+    if signed and n == 1:
+        n = 2
+    lo, hi = (-(1 << (n - 1)), (1 << (n - 1)) - 1) if signed else (0, (1 << n) - 1)
+    good = lambda: rng.choice([lo, hi, 0, rng.randint(lo, hi)])  # noqa: E731
+    bad = lambda: rng.choice([lo - 1, hi + 1, lo - 1000, hi + (1 << n)])  # noqa: E731
+    base = [good() for _ in range(rng.choice([3, 4, 6, 9]))]
+    op = rng.choice(ARRAY_MULTI_OPS)
+    k = {'setslice': 3, 'setslice-ext': (len(base) + 1) // 2, 'setslice-resize': rng.choice([1, 2, 5])}.get(op, rng.choice([1, 2, 3, 5]))
+    if op in ('insert', 'append', 'setitem'):
+        k = 1
+    vals = [good() for _ in range(k)]
+    badpos = rng.choice([None, None, 0, k - 1, k // 2, rng.randrange(k)])
+    if badpos is not None:
+        vals[badpos] = bad()
+    return {'kind': 'array-multi', 'spec': ('int' if signed else 'uint') + str(n), 'base': base, 'op': op, 'values': vals, 'badpos': badpos,
+            'trailing': rng.choice(['', '', '1', '01'][:2 + min(max(n - 1, 0), 2)])}
+
+
+def judge_array_multi(ctx, case):
+    spec, base, op, vals, badpos = case['spec'], case['base'], case['op'], case['values'], case['badpos']
+    with util.options(lsb0=False):
+        if op == 'init':
+            got = call(lambda: Array(spec, vals))
+            exp = list(vals)
+            a = got[1] if got[0] == 'ok' else None
+            before = None
+        else:
+            a = Array(spec, base, trailing_bits=('0b' + case['trailing']) if case['trailing'] else None)
+            if op.startswith('extend') and case['trailing']:
+                a = Array(spec, base)
+            before = (a.tolist(), B(a.data))
+            exp = list(base)
+            if op == 'setslice':
+                got = call(lambda: a.__setitem__(slice(0, 3), vals))
+                exp[0:3] = vals
+            elif op == 'setslice-ext':
+                got = call(lambda: a.__setitem__(slice(None, None, 2), vals))
+                exp[::2] = vals
+            elif op == 'setslice-resize':
+                got = call(lambda: a.__setitem__(slice(1, 3), vals))
+                exp[1:3] = vals
+            elif op == 'extend':
+                got = call(lambda: a.extend(vals))
+                exp += vals
+            elif op == 'extend-gen':
+                got = call(lambda: a.extend(v for v in vals))
+                exp += vals
+            elif op == 'insert':
+                got = call(lambda: a.insert(1, vals[0]))
+                exp.insert(1, vals[0])
+            elif op == 'append':
+                got = call(lambda: a.append(vals[0])) if not case['trailing'] else call(lambda: a.insert(len(base), vals[0]))
+                exp.append(vals[0])
+            else:
+                got = call(lambda: a.__setitem__(-1, vals[0]))
+                exp[-1] = vals[0]
+        ctx.op('Array-multi:' + op, 'ok' if got[0] == 'ok' else type(got[1]).__name__)
+        where = 'none' if badpos is None else 'first' if badpos == 0 else 'last' if badpos == len(vals) - 1 else 'middle'
+        if badpos is None:
+            if got[0] == 'ok' and a.tolist() == exp:
+                ctx.ok(('array-multi', op, 'valid', spec[:3]))
+            else:
+                ctx.mismatch(f'C15|Array-multi:{op}|valid|' + ('unexpected-exc:' + type(got[1]).__name__ if got[0] == 'exc' else 'items'), case,
+                             f'{got[1]!s:.80} {a.tolist() if a is not None else None!r:.80} expected {exp!r:.80}')
+            return
+        if got[0] == 'ok':
+            ctx.mismatch(f'C15|Array-multi:{op}|out-of-range-item-{where}|accepted', case, f'{a.tolist()!r:.100}')
+        elif not isinstance(got[1], ValueError):
+            ctx.mismatch(f'C15|Array-multi:{op}|out-of-range-item-{where}|wrong-exc:{type(got[1]).__name__}', case, f'{got[1]!s:.100}')
+        elif before is not None and (a.tolist(), B(a.data)) != before:
+            ctx.mismatch(f'C15|Array-multi:{op}|out-of-range-item-{where}|rejected-operation-changed-array', case,
+                         f'{before[0]!r:.80} -> {a.tolist()!r:.80}')
+        else:
+            ctx.ok(('array-multi', op, where, spec[:3]), True)
+    ctx.state(spec, op, where)
+
+
+# ---- the same integer dtypes spelled as struct codes -----------------------------------------------------------------
+STRUCT_INT = {'b': (8, True), 'B': (8, False), 'h': (16, True), 'H': (16, False), 'l': (32, True), 'L': (32, False),
+              'i': (32, True), 'I': (32, False), 'q': (64, True), 'Q': (64, False)}
+
+
+def gen_struct_value(ctx):
+    rng = ctx.rng
+    code = rng.choice(list(STRUCT_INT))
+    n, signed = STRUCT_INT[code]
+    lo, hi = (-(1 << (n - 1)), (1 << (n - 1)) - 1) if signed else (0, (1 << n) - 1)
+    v = rng.choice([lo, hi, lo - 1, hi + 1, 0, -1, 1, hi // 2 + 1, lo + 1, hi - 1, rng.randint(lo, hi), hi + rng.randint(1, 1 << n), lo - rng.randint(1, 1 << n)])
+    return {'kind': 'struct-value', 'code': rng.choice('<>=@') + code, 'value': v, 'route': rng.choice(['pack', 'pack-multi', 'Array-create', 'Array-set', 'Array-append'])}
+
+
+def judge_struct_value(ctx, case):
+    code, v, route = case['code'], case['value'], case['route']
+    n, signed = STRUCT_INT[code[-1]]
+    lo, hi = (-(1 << (n - 1)), (1 << (n - 1)) - 1) if signed else (0, (1 << n) - 1)
+    ok = lo <= v <= hi
+    with util.options(lsb0=False):
+        a = None
+        before = None
+        if route == 'pack':
+            got = call(lambda: pack(code, v))
+            length = lambda r: len(r)  # noqa: E731
+        elif route == 'pack-multi':
+            got = call(lambda: pack(code[0] + '2' + code[1], 0, v))
+            length = lambda r: len(r) // 2  # noqa: E731
+        elif route == 'Array-create':
+            got = call(lambda: Array(code, [v]))
+            length = lambda r: len(r.data)  # noqa: E731
+        else:
+            a = Array(code, [0, 0])
+            before = B(a.data)
+            got = call((lambda: a.__setitem__(1, v)) if route == 'Array-set' else (lambda: a.append(v)))
+            length = lambda r: a.itemsize  # noqa: E731
+        ctx.op('struct:' + route, 'ok' if got[0] == 'ok' else type(got[1]).__name__)
+        side = 'in-range' if ok else ('below' if v < lo else 'above')
+        kind = ('signed' if signed else 'unsigned') + str(n)
+        if ok:
+            if got[0] != 'ok':
+                ctx.mismatch(f'C15|struct:{route}|{kind}|valid|unexpected-exc:{type(got[1]).__name__}', case, f'{code}={v}: {got[1]!s:.80}')
+            elif length(got[1]) != n:
+                ctx.mismatch(f'C15|struct:{route}|{kind}|valid|length', case, f'{code}={v}: {length(got[1])} bits')
+            else:
+                ctx.ok(('struct', route, code[0], kind, side, v in (lo, hi)), True)
+        elif got[0] == 'ok':
+            ctx.mismatch(f'C15|struct:{route}|{kind}|{side}|accepted', case, f'{code}={v}')
+        elif not isinstance(got[1], ValueError):
+            ctx.mismatch(f'C15|struct:{route}|{kind}|{side}|wrong-exc:{type(got[1]).__name__}', case, f'{code}={v}: {got[1]!s:.80}')
+        elif a is not None and B(a.data) != before:
+            ctx.mismatch(f'C15|struct:{route}|{kind}|{side}|rejected-assignment-changed-target', case, f'{code}={v}')
+        else:
+            ctx.ok(('struct', route, code[0], kind, side, v in (lo - 1, hi + 1)), True)
+    ctx.state(code, side, route)
+
+
 def run(ctx):
+    for i in range(ctx.scale(8000, 100000)):
+        ctx.run_case(judge_array_multi, gen_array_multi(ctx))
+    for i in range(ctx.scale(8000, 100000)):
+        ctx.run_case(judge_struct_value, gen_struct_value(ctx))
     if ctx.shard == 0:
         zero_length_array(ctx)
         for c in DIRECTED:
@@ -390,5 +536,9 @@ def replay(ctx, case):
         endian_prop_nolength(ctx)
     elif case.get('kind') == 'zero-array':
         zero_length_array(ctx)
+    elif case.get('kind') == 'array-multi':
+        ctx.run_case(judge_array_multi, case)
+    elif case.get('kind') == 'struct-value':
+        ctx.run_case(judge_struct_value, case)
     else:
         ctx.run_case(judge_value, case)
